@@ -60,15 +60,9 @@ def inspect_obj(obj, t, langname, strict=True):
         return 'result is not a readable formula: %s' % e
     if back != t:
         return 'result has tree %r' % (back,)
-    base = fm.lang(langname).Formula
-    for node in fm.all_nodes(obj):
-        if strict and fm.module_lang(node) != langname:
-            return 'node %s lives in %s' % (type(node).__name__, type(node).__module__)
-        if not isinstance(node, base):
-            return 'node %s of %s is not a %s formula object' % (
-                type(node).__name__, type(node).__module__, langname)
-    if fm.module_lang(obj) != langname:
-        return 'the root object is a %s of %s' % (type(obj).__name__, type(obj).__module__)
+    bad = fm.foreign_node(obj, langname)
+    if bad:
+        return bad
     if strict and langname in ('CTL', 'CTLS'):
         try:
             s = obj.is_a_state_formula()
